@@ -2,6 +2,7 @@ package sim
 
 import (
 	"bytes"
+	"errors"
 	"fmt"
 	"runtime"
 	"runtime/debug"
@@ -393,6 +394,16 @@ func (s *Sched) park(c *client) {
 func (*hookT) Acquire(m *avfs.VerifRWMutex, write bool) bool {
 	s := active
 	if s == nil || s.cur == nil {
+		// a direct call of the harness (an observation on the main goroutine): only counted, see GuardDirect.
+		if directBudget != 0 {
+			directSteps++
+			if directSteps > directBudget {
+				directBudget = 0
+
+				panic(errDirectOverrun)
+			}
+		}
+
 		return false
 	}
 
@@ -934,6 +945,42 @@ func panicSite(stack []byte) string {
 			return " @" + l[len("github.com/avfs/avfs"):]
 		}
 	}
+
+	return ""
+}
+
+// Direct calls: what the harness itself calls on the main goroutine to observe a tree runs outside any
+// simulated client. GuardDirect bounds the lock events of such a call, so that a library call that never
+// returns (an endless retry, a cycle in the tree) ends the observation, and then the worker, instead of
+// spinning for ever.
+var (
+	directBudget, directSteps int64
+	errDirectOverrun          = errors.New("observation exceeded its budget of lock events") //nolint:gochecknoglobals // sentinel.
+	// Overrun is set when an observation was cut: the runner turns it into a verdict and ends the worker.
+	Overrun string //nolint:gochecknoglobals // read by RunWorker after every run.
+)
+
+// GuardDirect runs f (direct library calls on the main goroutine) under a budget of lock events.
+// It returns "" or why f was cut; a panic of the library itself is reported the same way.
+func GuardDirect(f func()) (why string) {
+	if directBudget != 0 {
+		f() // nested
+
+		return ""
+	}
+
+	directSteps, directBudget = 0, 2_000_000
+
+	defer func() {
+		directBudget = 0
+
+		if r := recover(); r != nil {
+			why = fmt.Sprint(r)
+			Overrun = why
+		}
+	}()
+
+	f()
 
 	return ""
 }
